@@ -759,9 +759,23 @@ impl Machine {
                             acc = self.num2(bop, &acc, &x)?;
                         }
                         if pulled == 0 && matches!(*op, "$+f" | "$*f" | "$+s" | "$+n" | "$*n") {
-                            // the neutral element is chosen by the iterator's run-time type tag (0 for an untyped
-                            // empty source): the C01 finding on `$+` / `$*`; the value is left open here
-                            return Ok(V::Unspec);
+                            // the neutral element is chosen by the iterator's run-time type tag. Where the reference
+                            // tracks that tag (a filtered / mapped / partly consumed sequence of floats or strings, a
+                            // part of a partition) the result is the typed neutral element; for an untyped empty source
+                            // (`[]~`, an empty collect) it is the C01 finding on `$+` / `$*` and left open
+                            let elem = match tag(&v) {
+                                Some(Ty::Fun(_, ret)) => match *ret {
+                                    Ty::Tup(ts) if ts.len() == 2 => Some(ts[1].clone()),
+                                    _ => None,
+                                },
+                                _ => None,
+                            };
+                            return Ok(match (elem, *op) {
+                                (Some(Ty::Float), "$+f") => V::Float(0.0),
+                                (Some(Ty::Float), "$*f") => V::Float(1.0),
+                                (Some(Ty::Str), "$+s") => V::Str(Rc::from("")),
+                                _ => V::Unspec,
+                            });
                         }
                         Ok(acc)
                     }
